@@ -6,7 +6,9 @@ proof  : lean/Pyunicorn/Properties/C14.lean (kernel loops = chord / horizontal
          as state, the float32 kernel under order faithfulness, closeness and
          boundary-corrected measures under reversal, path lengths = least walks;
          round 3: betweenness-type measures under reversal, float kernel subgraph of the
-         exact graph, order invariance of the horizontal graph, loop bounds from the source)
+         exact graph, order invariance of the horizontal graph, loop bounds from the source;
+         round 4: rndF32 = binary32 round-to-nearest-even, monotone, scale-covariant; pathLen =
+         breadth-first search of C03's model; horizontal graph of float64 callers' data)
 tie    : exact correspondence of the Lean model (lean/Pyunicorn/Model/Visibility.lean)
          with the compiled kernels at the kernel boundary and with
          `VisibilityGraph` at the object level, on data whose float32 slope
@@ -835,19 +837,23 @@ def run(ctx):
                 "(N <= 8), every ordered pair of the 16 own methods on one object, hubs of 130..520 samples, NaN at the "
                 "ends, timings in another float width / integer type than the values, nearly collinear data with exact "
                 "differences (float links subset of exact links), generic float64 data for the horizontal graph; "
+                "round 4: rndF32 against the machine's binary32 conversion / subtraction / division (ties, exponent "
+                "boundaries, subnormals), path_lengths() matrices (N <= 14, connected and disconnected); "
                 "distinct = distinct (request); non-trivial = at least 3 samples, not all equal")
     ctx.trusted = common.DEFAULT_TRUSTED + [
         "float32: kernelNR rndF32 (differences and quotient rounded to binary32, RNE, no overflow) is "
         "compared exactly with the compiled natural kernels on generic float32 data; theorem "
         "nvg_float32_eq_exact reduces it to the exact model under `Faithful`, which the Lean driver "
         "decides for the series of the exact correspondence (f32_exact selects them independently)",
-        "Network.path_lengths (igraph) is modelled by its specification pathLen (least number of links, "
-        "theorem path_lengths_are_least_walk_lengths)",
+        "Network.path_lengths: igraph's C implementation of distances() is third-party code; its model is the "
+        "breadth-first search Net.dist of property C03, proved equal to the specification pathLen (pathLen_is_bfs, "
+        "path_lengths_are_least_walk_lengths) and compared with path_lengths() of the objects",
         "retarded/advanced/trans betweenness: modelled by property C03's model of the kernel _nsi_betweenness; the "
         "reversal theorems are about the pair-dependency definition betwSpec; kernel model == definition is compared "
         "on every sampled case (driver), not proved",
-        "nvg_float_subgraph assumes a monotone rounding; rndF32 is not proved monotone (the theorem's conclusion is "
-        "checked on the compiled kernels for data with exact differences)"]
+        "binary32: rndF32 is proved round-to-nearest-even onto m*2^e (|m| < 2^24, e >= -149) and monotone; that the "
+        "machine's float arithmetic is this function is compared (rnd32 correspondence: conversion, subtraction, "
+        "division), overflow is outside the model"]
     ctx.proofs()
 
     # ---------------- the series pool ---------------------------------------
